@@ -328,6 +328,22 @@ theorem nuniq_iter_maximal (g J : Nat) (M : List Rng) (hc : Canon M) :
       e.2.1 ≤ y ∧ y < e.2.2 → ¬ BlockIn (g * (e.1 + 1)) p M :=
   run_maximal g J M hc
 
+/-- **`UniqToHpxIter`** yields exactly the ranges of the cells whose NUNIQ numbers lie in the NUNIQ ranges: a range is
+    emitted iff it is the range of the cell decoded from one of those numbers. -/
+theorem uniq_to_hpx_spec (w : Nat) (urs : List Rng) (x : Rng) :
+    x ∈ uniqToHpx w urs ↔ ∃ r ∈ urs, ∃ u, r.1 ≤ u ∧ u < r.2 ∧ x = rangeOfCell Params.hpx w (fromUniqHpx u) := by
+  induction urs with
+  | nil => simp [uniqToHpx]
+  | cons r t ih =>
+    simp only [uniqToHpx, List.mem_append, List.mem_map, List.mem_range, ih, List.mem_cons, exists_eq_or_imp]
+    constructor
+    · rintro (⟨i, hi, rfl⟩ | h)
+      · exact .inl ⟨r.1 + i, by omega, by omega, rfl⟩
+      · exact .inr h
+    · rintro (⟨u, h1, h2, rfl⟩ | h)
+      · exact .inl ⟨u - r.1, by omega, by rw [Nat.add_sub_cancel' h1]⟩
+      · exact .inr h
+
 /-- Non-vacuity: a canonical list to which both theorems apply (a whole level-1 cell and one more index; the
     driver evaluates `run` on it: `[(1, (12, 16)), (0, (16, 17))]`). -/
 example : Canon [((12 : Nat), (17 : Nat))] := by simp [Canon, CanonFrom]
